@@ -242,6 +242,34 @@ def frames_loop_form(fx, sy, fv, slf, tr, rf):
     return okp, desc
 
 
+def semantic_templates(fx, path):
+    """the format templates a function writes, read off its evaluated effects (private helpers inlined, `{}` filled with a
+    string literal folded into the text); None if the body cannot be evaluated"""
+    sy = S.Sym(fx, inline_mut=True)
+    try:
+        res = sy.eval_body(fx.bodies[path])
+    except S.Undecidable:
+        return None
+    out = set()
+
+    def grab(effects):
+        for e in effects:
+            if e[0] == "call" and e[1].endswith("write_fmt") and len(e[2]) > 1 and e[2][1][0] == "fmtargs":
+                out.add("".join(p[1] if p[0] == "txt" else "{}" for p in e[2][1][1]))
+            if e[0] == "call" and e[1].endswith("Iterator::try_for_each") and len(e[2]) > 1 and e[2][1][0] == "closure":
+                try:
+                    for st2, o2 in sy.apply(e[2][1], [("bound", 0)], S.St(), {"sp": "?"}):
+                        grab(st2.effects)
+                except S.Undecidable:
+                    pass
+    for st, o in res:
+        grab(st.effects)
+    for k_ in sy.loop_order:
+        for st, o in sy.loops[k_]["paths"]:
+            grab(st.effects)
+    return sorted(out)
+
+
 def check_display_templates(fx, rep, rule):
     """C08.4: Display for StackTrace prints what the text API prints, piecewise"""
     disp = A.method(fx, "stacktrace::StackTrace", "fmt", trait="Display")
@@ -254,7 +282,7 @@ def check_display_templates(fx, rep, rule):
     for nm in ("format_throwable", "format_frames", "format_cause"):
         c = A.func(fx, "mapper", nm)
         if len(c) == 1:
-            text[nm] = sorted(set(templates_in(fx, c[0])))
+            text[nm] = sorted(set(semantic_templates(fx, c[0]) or templates_in(fx, c[0])))
             rep.fn(c[0])
     want_disp = ["    {}\n", "Caused by: {}", "{}\n"]
     rep.check(rule, "%s/templates/display" % rule, dt == sorted(want_disp), loc=F.short_file(fx.bodies[p]["sp"]), found="Display templates %s" % dt,
@@ -439,7 +467,7 @@ def check_format_helpers(fx, rep, rule):
             continue
         rep.fn(p)
         b = fx.bodies[p]
-        sy = S.Sym(fx)
+        sy = S.Sym(fx, inline_mut=True)
         res = sy.eval_body(b)
         names = [prm["pat"]["name"] for prm in b["params"] if prm.get("pat")]
         out, line, opt = ("place", names[0], ()), ("in", names[1]), ("in", names[2])
@@ -654,14 +682,12 @@ def check_element_display(fx, rep, rule):
         okc = bool(res)
         for st, (k, v) in res:
             w = [e for e in st.effects if e[0] == "call" and e[1].endswith("write_fmt")]
-            if len(w) != 1 or w[0][2][1][0] != "fmtargs" or w[0][2][1][1] != want_tpl:
-                okc = False
-                continue
-            args = [a[1] for a in w[0][2][1][2]]
             a_ = fc.assignment(st.conds)
             has_file = a_.get(("is", mk_field(slf, "file"), "Some"))
             want_file = mk_payload(mk_field(slf, "file"), "Some", "0") if has_file else ("lit", "str", "<unknown>")
-            if args != [mk_field(slf, "class"), mk_field(slf, "method"), want_file, mk_field(slf, "line")]:
+            # the canonical fmtargs form folds literal arguments into the text ("<unknown>" when there is no file)
+            want_fa = M.fold_literal_args(want_tpl, tuple(("display", x) for x in (mk_field(slf, "class"), mk_field(slf, "method"), want_file, mk_field(slf, "line"))))
+            if len(w) != 1 or w[0][2][1] != want_fa:
                 okc = False
         rep.check(rule, "%s/display/StackFrame" % rule, okc, loc=F.short_file(fx.bodies[p]["sp"]), found=desc,
                   expected='"at {class}.{method}({file or <unknown>}:{line})"')
